@@ -114,6 +114,9 @@ def check(pm: ProgramModel, ctx: Ctx) -> None:
     mb.relation(a, [mb.feature("A2")], 1, 1)
     mb.relation(b, [mb.feature("B1"), mb.feature("B2")], 1, 1)
     validate(ctx, pm, "C11-GROUPS", "singles+nested", mb.model(root, []), "mandatory/optional children with a nested group")
+    from ..codec import export_models
+    for key_, m_, what_ in export_models(mb, BINARY_LOGICAL, mixed=False):
+        validate(ctx, pm, "C11-GROUPS" if not m_._f["ctcs"] else "C11-OPS", f"large:{key_}", m_, what_)
     ctx.analysed["C11:kind-contexts"] = nk
     # operators ---------------------------------------------------------------------------------------
     n, o = mb.node, mb.op
